@@ -4,9 +4,23 @@ use crate::chain::Net;
 use crate::engine::{Outcome, Property, Tier};
 use crate::hist::{history_brief, history_strategy, History, World};
 use crate::sut::{self, Filter};
-use proptest::strategy::{BoxedStrategy, Strategy};
+use proptest::prelude::*;
+
+fn budgets() -> impl Strategy<Value = Vec<u16>> {
+    prop_oneof![3 => Just(vec![]), 2 => prop::collection::vec(1u16..6, 1..4)]
+}
 
 pub struct C05;
+
+#[derive(Clone, Debug, serde::Serialize, serde::Deserialize)]
+pub struct Case05 {
+    #[serde(flatten)]
+    pub hist: History,
+    /// Per-round budgets for time-sliced ingestion (empty = unsliced); the relation is also
+    /// checked at every pause point.
+    #[serde(default)]
+    pub budgets: Vec<u16>,
+}
 
 fn err_class(e: &str) -> &'static str {
     if e.contains("MalformedAddress") {
@@ -85,14 +99,14 @@ pub fn check_balance_vs_utxos(w: &mut World, i: usize, a: &str, c: Option<u32>, 
 }
 
 impl Property for C05 {
-    type Case = History;
+    type Case = Case05;
     fn id(&self) -> &'static str {
         "C05"
     }
-    fn strategy(&self, tier: Tier) -> BoxedStrategy<History> {
+    fn strategy(&self, tier: Tier) -> BoxedStrategy<Case05> {
         match tier {
-            Tier::Quick => history_strategy(20, 2, true, true).boxed(),
-            Tier::Thorough => history_strategy(40, 3, true, true).boxed(),
+            Tier::Quick => (history_strategy(20, 2, true, true), budgets()).prop_map(|(hist, budgets)| Case05 { hist, budgets }).boxed(),
+            Tier::Thorough => (history_strategy(40, 3, true, true), budgets()).prop_map(|(hist, budgets)| Case05 { hist, budgets }).boxed(),
         }
     }
     fn cases(&self, tier: Tier) -> u32 {
@@ -102,21 +116,39 @@ impl Property for C05 {
         }
     }
     fn rule(&self) -> String {
-        "Metamorphic, no model: histories as in C01; after every operation for pool addresses, malformed strings and addresses of another network, and every c in {none, 0..=best-chain length+2}: get_balance(a,c) must equal the sum over all pages of get_utxos(a,c); both must refuse the same requests with the same error class; query variants equal update variants. Non-trivial: non-zero balance on a tree with >= 2 leaves, or c >= 2 with non-zero balance; distinct = (tree shape, c, balance) hashes. Paused-ingestion moments are covered by C08's snapshot, which contains the same pair of endpoints.".into()
+        "Metamorphic, no model: histories as in C01; after every operation for pool addresses, malformed strings and addresses of another network, and every c in {none, 0..=best-chain length+2}: get_balance(a,c) must equal the sum over all pages of get_utxos(a,c); both must refuse the same requests with the same error class; query variants equal update variants. Non-trivial: non-zero balance on a tree with >= 2 leaves, or c >= 2 with non-zero balance; distinct = (tree shape, c, balance) hashes. In 40% of the histories stabilising blocks are ingested in slices (budgets of 1..5 operations) and the relation is also checked after every paused round.".into()
     }
-    fn brief(&self, case: &History) -> serde_json::Value {
-        history_brief(case)
+    fn brief(&self, case: &Case05) -> serde_json::Value {
+        serde_json::json!({"budgets": case.budgets, "history": history_brief(&case.hist)})
     }
     fn required_classes(&self, _tier: Tier) -> Vec<&'static str> {
-        vec!["nonzero_on_fork", "c_ge_2_nonzero", "both_refuse_too_large", "both_refuse_malformed", "both_refuse_wrong_network"]
+        vec!["nonzero_on_fork", "c_ge_2_nonzero", "both_refuse_too_large", "both_refuse_malformed", "both_refuse_wrong_network", "relation_checked_while_ingestion_paused"]
     }
-    fn run(&self, case: &History) -> Outcome {
+    fn run(&self, case: &Case05) -> Outcome {
+        let budgets = case.budgets.clone();
+        let case = &case.hist;
         let mut out = Outcome::default();
         let mut w = World::new(&case.cfg);
+        w.slice_budgets = budgets;
         history_classes(case, &mut out);
         let addrs = w.distinct_addresses();
         for (i, op) in case.ops.iter().enumerate() {
-            let info = w.apply(i, op);
+            let mut pause_out = Outcome::default();
+            let addrs_p = addrs.clone();
+            let info = w.apply_with(i, op, &mut |w2: &mut World, round: u32| {
+                // while a block is being ingested in slices
+                pause_out.class("relation_checked_while_ingestion_paused");
+                let a = addrs_p[(i + round as usize) % addrs_p.len()].clone();
+                let len = w2.model.best_chain().len() as u32;
+                for c in [None, Some(0), Some(1), Some(2), Some(len), Some(len + 1)] {
+                    check_balance_vs_utxos(w2, i, &a, c, &mut pause_out);
+                }
+            });
+            out.checks += pause_out.checks;
+            out.discs.extend(pause_out.discs);
+            for (k, v) in pause_out.classes {
+                out.class_n(k, v);
+            }
             if step_errors(&info, &mut out) {
                 return out;
             }
